@@ -7,6 +7,8 @@
      pkg/ha/heartbeat.go  sendHeartbeat / the body of ReceiveLoop / checkPeerTimeout -> handlePeerLost
    for ONE redundancy group shared by TWO nodes, plus the "network" between them (two bags
    of in-flight heartbeat snapshots).  Definitions only; proofs are in Proofs.v.
+   A Manager that serves several groups is the product of one such model per group: the groups
+   share only peerNodeID, and a heartbeat that lacks a group's status is that group's [ETouch].
 
    A [variant] selects, independently for each of the five defects found and since fixed in /repo
    (notes/C10.md section 4), the ORIGINAL behaviour (flag false) or the behaviour of /repo HEAD
@@ -264,7 +266,11 @@ Inductive ev :=
 | EPeerLost (w : who)                    (* w alone notices the loss: handlePeerLost *)
 | EIf (w : who) (k : nat) (down : bool)  (* interface-state notification on w *)
 | ESwLocal (w : who) (force : bool)      (* local half of Manager.RequestSwitchover *)
-| ESwRemote (w : who).                   (* HAPeerServer.RequestSwitchover on w *)
+| ESwRemote (w : who)                    (* HAPeerServer.RequestSwitchover on w *)
+| ETouch (w : who) (i : nat).            (* in-flight message #(i mod len) reaches w WITHOUT a status for this
+                                            group (the Manager serves several groups; handlePeerHeartbeat then
+                                            only runs its m.mu section: peerNodeID = msg.NodeId); requests are
+                                            still answered with a full snapshot *)
 
 Fixpoint remove_nth {X} (i : nat) (l : list X) : list X :=
   match l, i with
@@ -304,6 +310,19 @@ Definition step (v : variant) (cs : cfgs) (s : pair) (e : ev) : pair * list (who
   | EIf w k d => let '(n, t) := handle_if v (cfg_of w cs) (node_of w s) k d in (set_node w s n, tag w t)
   | ESwLocal w f => let '(n, t) := switchover (node_of w s) f in (set_node w s n, tag w t)
   | ESwRemote w => let '(n, t) := switchover (node_of w s) false in (set_node w s n, tag w t)
+  | ETouch w i =>
+      let q := queue_to w s in
+      match nth_error q (i mod length q)%nat with
+      | None => (s, [])
+      | Some m =>
+          let s := set_queue w s (remove_nth (i mod length q)%nat q) in
+          let n := set_pknown (node_of w s) (nonempty (h_id m)) in
+          let s := set_node w s n in
+          let s := if h_req m
+                   then set_queue (other w) s (queue_to (other w) s ++ [snapshot (cfg_of w cs) n false])
+                   else s in
+          (s, [])
+      end
   end.
 
 Fixpoint run (v : variant) (cs : cfgs) (s : pair) (es : list ev) : pair :=
